@@ -1,8 +1,11 @@
 import GMGDriver.GridDrv
+import GMGDriver.LinalgDrv
 
 def main (args : List String) : IO UInt32 := do
   match args with
   | ["grid"] => GridDrv.main
+  | ["tridiag"] => LinalgDrv.tridiagMain
+  | ["lu"] => LinalgDrv.luMain
   | _ => do
-    IO.eprintln "usage: gmgdriver <grid|...>  (reads the harness line protocol on stdin)"
+    IO.eprintln "usage: gmgdriver <grid|tridiag|lu|...>  (reads the harness line protocol on stdin)"
     return 2
